@@ -76,6 +76,8 @@ pub enum Op {
     CallOnEnt { h: u8 },
     CallOnEntSpec { h: u8 },
     Specify { h: u8, val: Src },
+    /// specify on any struct in the pool (panics if it was not created by this execution)
+    SpecifyAny { h: u8, val: Src },
     /// ty: 0 Sym1 (revisions=1), 1 Sym2 (=2), 2 Sym3 (default), 3 SymImm (usize::MAX)
     Intern { ty: u8, x: Src },
     SymField { h: u8 },
@@ -171,6 +173,10 @@ pub struct Profile {
     pub sym_dom: u32,
     pub ret_h_pct: u32,
     pub lattice: bool,
+    /// C09 shape: first half of the nodes are 'mk' nodes (reads, then interns), the rest readers
+    pub intern_shape: bool,
+    /// percent of Specify ops generated as SpecifyAny
+    pub specify_any_pct: u32,
 }
 
 impl Profile {
@@ -196,6 +202,8 @@ impl Profile {
             sym_dom: 6,
             ret_h_pct: 50,
             lattice: false,
+            intern_shape: false,
+            specify_any_pct: 0,
         }
     }
 }
@@ -250,7 +258,11 @@ impl G<'_, '_> {
                 4 => Op::EntField { h: self.t.pick(4) as u8, which: self.t.pick(3) as u8 },
                 5 => Op::CallOnEnt { h: self.t.pick(4) as u8 },
                 6 => Op::CallOnEntSpec { h: self.t.pick(4) as u8 },
-                7 => Op::Specify { h: self.t.pick(4) as u8, val: self.src(VMOD) },
+                7 => {
+                    let h = self.t.pick(4) as u8;
+                    let val = self.src(VMOD);
+                    if self.t.pick(100) < self.pf.specify_any_pct { Op::SpecifyAny { h, val } } else { Op::Specify { h, val } }
+                }
                 8 => Op::Intern { ty: self.t.weighted(&self.pf.sym_types) as u8, x: self.src(self.pf.sym_dom) },
                 9 => Op::SymField { h: self.t.pick(4) as u8 },
                 10 => Op::CallOnSym { h: self.t.pick(4) as u8 },
@@ -266,6 +278,9 @@ impl G<'_, '_> {
 pub fn gen_program(t: &mut Tape, pf: &Profile) -> Program {
     if pf.lattice {
         return gen_lattice_program(t, pf);
+    }
+    if pf.intern_shape {
+        return gen_intern_program(t, pf);
     }
     let nslots = 1 + t.pick(pf.max_slots);
     let ncells = if pf.max_cells == 0 { 0 } else { t.pick(pf.max_cells + 1) };
@@ -390,12 +405,17 @@ pub fn gen_lattice_program(t: &mut Tape, pf: &Profile) -> Program {
             .collect();
         nodes.push(Node { kind: Kind::Plain, nargs: 1, body, ret_h: false });
     }
-    let cyc_kinds = [Kind::Fix, Kind::FixJoin, Kind::Fall, Kind::Div];
-    let cyc_w = [pf.kinds[6], pf.kinds[7], pf.kinds[8], pf.kinds[9]];
+    // layer-1 kinds: fix, fix_join, fall, div, and (C14) plain = no cycle recovery
+    let cyc_kinds = [Kind::Fix, Kind::FixJoin, Kind::Fall, Kind::Div, Kind::Plain];
+    let cyc_w = [pf.kinds[6], pf.kinds[7], pf.kinds[8], pf.kinds[9], pf.kinds[0]];
     for i in 0..l1 {
         let kind = cyc_kinds[t.weighted(&cyc_w)];
         let nops = 1 + t.pick(pf.max_ops);
-        let body = lat_ops(t, nops, l0, l0 + l1, l0 + i, kind, nslots, 0, pf);
+        let mut body = lat_ops(t, nops, l0, l0 + l1, l0 + i, kind, nslots, 0, pf);
+        if kind == Kind::Div && t.chance(1, 5) {
+            // self-loop oscillator, always the last op so the node's value is exactly !self & 1
+            body.push(Op::CallNot { node: (l0 + i) as u8, arg: Src::Const(0) });
+        }
         nodes.push(Node { kind, nargs: 1, body, ret_h: false });
     }
     for _ in 0..l2 {
@@ -434,18 +454,9 @@ fn lat_ops(t: &mut Tape, n: u32, _l0: u32, callable: u32, me: u32, kind: Kind, n
         let arg = Src::Const(0);
         let op = match k {
             0 => Op::Read { slot, field },
-            1 => {
-                if kind == Kind::Div {
-                    // Div bodies: increment of callee (cap from input) or, as a self loop, oscillator
-                    if t.chance(1, 4) && me != u32::MAX {
-                        Op::CallNot { node: me as u8, arg }
-                    } else {
-                        Op::CallInc { node, arg, slot, field }
-                    }
-                } else {
-                    Op::Call { node, arg }
-                }
-            }
+            // Div bodies: only increments of a callee (cap from an input; cap value 3 = none)
+            1 | 2 | 3 if kind == Kind::Div => Op::CallInc { node, arg, slot, field },
+            1 => Op::Call { node, arg },
             2 => Op::CallMask { node, arg, slot, field },
             3 => Op::CallShift { node, arg },
             _ => {
@@ -460,4 +471,83 @@ fn lat_ops(t: &mut Tape, n: u32, _l0: u32, callable: u32, me: u32, kind: Kind, n
         v.push(op);
     }
     v
+}
+
+// ---------------------------------------------------------------------------------------------
+// C09 shape: "mk" nodes read input fields (of some durability) and then intern; reader nodes
+// call them and use the handles. The durability stamp of every interning is then exactly the
+// minimum durability of the fields read before it in the same body.
+// ---------------------------------------------------------------------------------------------
+
+pub fn gen_intern_program(t: &mut Tape, pf: &Profile) -> Program {
+    let nslots = 1 + t.pick(pf.max_slots);
+    let mut slots = Vec::new();
+    for _ in 0..nslots {
+        let mut s = [(0, D::Low); 2];
+        for f in &mut s {
+            *f = (t.pick(VMOD), D::from_idx(t.weighted(&pf.durs)));
+        }
+        slots.push(s);
+    }
+    let nmk = 1 + t.pick(4);
+    let nrd = t.pick(4);
+    let mut nodes = vec![];
+    fn mk_ops(t: &mut Tape, pf: &Profile, nslots: u32, n: u32, depth: u32) -> Vec<Op> {
+        let mut v = vec![];
+        for _ in 0..n {
+            let k = t.weighted(&[3, 5, if depth < 2 { 2 } else { 0 }]);
+            let slot = t.pick(nslots) as u8;
+            let field = t.pick(2) as u8;
+            v.push(match k {
+                0 => Op::Read { slot, field },
+                1 => {
+                    let x = if t.chance(1, 2) { Src::Acc } else { Src::Const(t.pick(pf.sym_dom)) };
+                    Op::Intern { ty: t.weighted(&pf.sym_types) as u8, x }
+                }
+                _ => {
+                    let thr = 1 + t.pick(VMOD - 1);
+                    let nt = t.pick(3);
+                    let ne = t.pick(3);
+                    let then = mk_ops(t, pf, nslots, nt, depth + 1);
+                    let els = mk_ops(t, pf, nslots, ne, depth + 1);
+                    Op::If { slot, field, thr, then, els }
+                }
+            });
+        }
+        v
+    }
+    for _ in 0..nmk {
+        let nops = 1 + t.pick(pf.max_ops);
+        // most mk nodes start with a read so their interned values are LOW..HIGH stamped
+        let mut body = vec![];
+        if t.chance(4, 5) {
+            body.push(Op::Read { slot: t.pick(nslots) as u8, field: t.pick(2) as u8 });
+        }
+        body.extend(mk_ops(t, pf, nslots, nops, 0));
+        nodes.push(Node { kind: Kind::Plain, nargs: 1 + t.pick(2) as u8, body, ret_h: true });
+    }
+    for i in 0..nrd {
+        let nops = 1 + t.pick(pf.max_ops);
+        let mut body = vec![];
+        for _ in 0..nops {
+            let k = t.weighted(&[2, 5, 3, 2]);
+            body.push(match k {
+                0 => Op::Read { slot: t.pick(nslots) as u8, field: t.pick(2) as u8 },
+                1 => Op::Call { node: t.pick(nmk + i) as u8, arg: Src::Const(t.pick(2)) },
+                2 => Op::SymField { h: t.pick(4) as u8 },
+                _ => Op::CallOnSym { h: t.pick(4) as u8 },
+            });
+        }
+        nodes.push(Node { kind: Kind::Plain, nargs: 1, body, ret_h: t.chance(1, 2) });
+    }
+    Program {
+        slots,
+        cells: vec![],
+        nodes,
+        base: nmk as u8,
+        on_ent: vec![],
+        on_ent_spec: vec![],
+        on_sym: vec![Op::SymField { h: 0 }],
+        lattice: false,
+    }
 }
